@@ -2,6 +2,7 @@
   C08 — any chain of conversions preserves the cue timeline: the time grids of the formats are nested, so a chain
   coarsens to its coarsest format once and a second pass changes nothing.
 -/
+import PcVerif.Lemmas.SrtRoundTrip
 namespace PcVerif.Props.C08
 
 inductive Res | ms | frame
@@ -51,5 +52,32 @@ theorem second_pass_identity (rs : List Res) (t : Nat) : chain rs (chain rs t) =
   · by_cases he : rs = []
     · simp [he]
     · simp [hf, he, coarsen_idempotent]
+
+/-! ### one real hop, proved end to end on the models of the writer and the reader: SRT -/
+
+open PcVerif in
+/-- **C08 (SRT hop).** for every list of cues with visible text (any number of cues, any instants, any nodes) reading
+    what `SRTWriter` wrote returns exactly one caption per written cue, in order, with the written instants and the
+    writer's text lines — no cue is created, lost, split or merged by the hop -/
+theorem srt_hop (capsIn : List RCap)
+    (hne : Srt.mergeSame [] capsIn ≠ [])
+    (hv : ∀ c ∈ Srt.mergeSame [] capsIn, Srt.textsOf c.nodes ≠ [])
+    (hbr : ∀ c ∈ Srt.mergeSame [] capsIn, ∀ t ∈ Srt.textsOf c.nodes, Srt.NoBreak t) :
+    Srt.read (Srt.write [capsIn]) = .ok ((Srt.mergeSame [] capsIn).map Srt.readBack) :=
+  Srt.srt_write_read capsIn hne hv hbr
+
+open PcVerif in
+/-- the instant that comes back from the SRT hop is the abstract `coarsen .ms` of this file (below 24 h) -/
+theorem srt_hop_instant (t : Rat) (h : Fmt.wholeMicro t < 86400000000) :
+    Srt.msT t = coarsen .ms (Fmt.wholeMicro t) := by
+  unfold Srt.msT coarsen
+  rw [Nat.mod_eq_of_lt h]
+
+open PcVerif in
+/-- the hypotheses of `srt_hop` are satisfiable (a cue with two lines, the second with markup-looking text) -/
+example : ∃ c : RCap, Srt.mergeSame [] [c] ≠ [] ∧ (∀ x ∈ Srt.mergeSame [] [c], Srt.textsOf x.nodes ≠ []) ∧
+    Srt.textsOf c.nodes = ["hi ".toList, "1 --> 2".toList] :=
+  ⟨⟨0, 0, [.text "hi".toList, .brk, .text "".toList, .brk, .text "1 --> 2".toList]⟩, by simp [Srt.mergeSame],
+    by intro x hx; simp [Srt.mergeSame] at hx; subst hx; decide, by decide⟩
 
 end PcVerif.Props.C08
